@@ -381,6 +381,8 @@ func HoleCases(yield func(hole, rep string, s S)) {
 }
 
 // SelectClauseSubsets yields every subset of the ten optional SELECT clauses.
+// Every clause carries a name that occurs nowhere else in the statement, so that an oracle over collected names
+// notices a clause that is skipped.
 func SelectClauseSubsets(yield func(mask int, s S)) {
 	for m := 0; m < 1<<10; m++ {
 		s := Sel{Items: []SelItem{{X: Col("c1")}, {X: Func("COUNT", nil, FuncOpts{Star: true}), Alias: "a1", AsKw: true}}, From: []TableRef{{Name: "t1"}}}
@@ -391,19 +393,19 @@ func SelectClauseSubsets(yield func(mask int, s S)) {
 			s.Distinct = true
 		}
 		if m&4 != 0 {
-			s.Joins = []Join{{Kw: "LEFT JOIN", Right: TableRef{Name: "t2", Alias: "a2"}, On: xp(Bin("=", QCol("t1", "c1"), QCol("a2", "c1")))}}
+			s.Joins = []Join{{Kw: "LEFT JOIN", Right: TableRef{Name: "t2", Alias: "a2"}, On: xp(Bin("=", QCol("t1", "c1"), QCol("a2", "c6")))}}
 		}
 		if m&8 != 0 {
 			s.Where = xp(Bin(">", Col("c2"), Int("0")))
 		}
 		if m&16 != 0 {
-			s.GroupBy = []X{Col("c1")}
+			s.GroupBy = []X{Col("c3")}
 		}
 		if m&32 != 0 {
-			s.Having = xp(Bin(">", Func("COUNT", nil, FuncOpts{Star: true}), Int("1")))
+			s.Having = xp(Bin(">", Func("SUM", []X{Col("c4")}, FuncOpts{}), Int("1")))
 		}
 		if m&64 != 0 {
-			s.OrderBy = []OrderItem{{X: Col("c1"), Dir: "DESC", Nulls: "LAST"}}
+			s.OrderBy = []OrderItem{{X: Col("c5"), Dir: "DESC", Nulls: "LAST"}}
 		}
 		if m&128 != 0 {
 			s.Limit = ip(10)
@@ -456,6 +458,24 @@ func ClauseOptions(yield func(name string, s S)) {
 	s = base()
 	s.From = []TableRef{{Name: "t1"}, {Sub: &q, Alias: "a1", Lateral: true}}
 	yield("from-lateral", s.Build())
+	// the same base name under different qualifiers, and the same column under different tables: names that only
+	// differ in their qualifier must stay apart wherever names are collected or compared
+	s = base()
+	s.From = []TableRef{{Schema: "s1", Name: "t1"}, {Schema: "s2", Name: "t1"}}
+	yield("same-name-two-schemas", s.Build())
+	s = base()
+	s.From = []TableRef{{Name: "t1"}, {Schema: "s1", Name: "t1", Alias: "a2"}}
+	yield("same-name-bare-and-schema", s.Build())
+	s = base()
+	s.From = []TableRef{{Schema: "s1", Name: "t1", Alias: "a1"}}
+	s.Joins = []Join{{Kw: "JOIN", Right: TableRef{Schema: "s2", Name: "t1", Alias: "a2"}, On: xp(Bin("=", QCol("a1", "c1"), QCol("a2", "c1")))}}
+	s.Items = []SelItem{{X: QCol("a1", "c1")}, {X: QCol("a2", "c1")}, {X: QCol("a2", "c2")}}
+	yield("same-name-join", s.Build())
+	sub := Sel{Items: []SelItem{{X: Col("c1")}}, From: []TableRef{{Schema: "s2", Name: "t1"}}}.Build()
+	s = base()
+	s.From = []TableRef{{Schema: "s1", Name: "t1"}}
+	s.Where = xp(InSub(Col("c1"), false, sub))
+	yield("same-name-subquery", s.Build())
 	// FROM lists with derived tables in every position (first / middle / last / all)
 	d1 := Sel{Items: []SelItem{{X: Func("f1", []X{Col("c1")}, FuncOpts{}), Alias: "a7", AsKw: true}}, From: []TableRef{{Name: "t5"}}, Where: xp(Bin(">", Col("c5"), Int("0")))}.Build()
 	d2 := Sel{Items: []SelItem{{X: Func("f2", []X{Col("c2")}, FuncOpts{}), Alias: "a8", AsKw: true}}, From: []TableRef{{Name: "t6"}}, Where: xp(Bin(">", Col("c6"), Int("0")))}.Build()
@@ -739,6 +759,7 @@ func StmtHoles(depth int, yield func(name string, s S)) {
 		yield("call-arg-scalar:"+qn, selItem(Func("f1", []X{Subq(q)}, FuncOpts{})))
 		yield("case-scalar:"+qn, selItem(Case(nil, []When{{Exists(false, q), Int("1")}}, xp(Int("0")))))
 		yield("having-in:"+qn, Sel{Items: []SelItem{{X: Col("c0")}}, From: []TableRef{{Name: "t0"}}, GroupBy: []X{Col("c0")}, Having: xp(InSub(Col("c0"), false, q))}.Build())
+		yield("having-nogroup-in:"+qn, Sel{Items: []SelItem{{X: Func("COUNT", nil, FuncOpts{Star: true})}}, From: []TableRef{{Name: "t0"}}, Having: xp(InSub(Col("c0"), false, q))}.Build())
 		yield("join-on-exists:"+qn, Sel{Items: []SelItem{{X: Col("c0")}}, From: []TableRef{{Name: "t0"}},
 			Joins: []Join{{Kw: "JOIN", Right: TableRef{Name: "t1"}, On: xp(Exists(false, q))}}}.Build())
 	})
